@@ -549,7 +549,43 @@ func schemaAtoi(x *Exec, st *State, fn *ssa.Function, args []Val, c *ssa.CallCom
 	return TupleVal{o.Ite(simple, val, uv), x.iteVal(simple, ok, ue)}
 }
 
-// strconv.ParseUint(s, 10, 64): for inputs of bounded length the exact semantics; otherwise uninterpreted.
+// parseUintTerms: (ok, value) of strconv.ParseUint(s, 10, 64). Bounded length: the exact semantics. Unbounded:
+// uninterpreted functions of the content, with the assumed canonical-text axiom
+//   ok(s) && (len(s) == 1 || s[0] != '0')  ==>  the decimal text of value(s) is s       (strconv round trip)
+// and ok(s) ==> every byte of s is a digit && len(s) >= 1.
+func (x *Exec) parseUintTerms(s StrVal) (*Term, *Term) {
+	o := x.o
+	if b := o.Bounds(s.Len); b.hi != nil && b.hi.IsInt64() && b.hi.Int64() <= 24 {
+		K := int(b.hi.Int64())
+		digits, val := x.decimalValue(s, K)
+		return o.And(o.Le(o.Int(1), s.Len), digits, o.Lt(val, o.IntBig(two64))), val
+	}
+	valid := o.UF("parseuint.ok", BoolSort, s.Arr, s.Off, s.Len)
+	val := o.UF("parseuint.val", IntSort, s.Arr, s.Off, s.Len)
+	if x.puDone == nil {
+		x.puDone = map[*Term]bool{}
+	}
+	if !x.puDone[valid] {
+		x.puDone[valid] = true
+		x.assume(o.And(o.Le(o.Int(0), val), o.Lt(val, o.IntBig(two64))))
+		i := o.BoundVar("i", o.IdxSort())
+		c := o.Select(s.Arr, o.IdxAdd(s.Off, i))
+		x.assume(o.Implies(valid, o.And(o.Le(o.Int(1), s.Len),
+			o.Forall([]*Term{i}, o.Implies(o.And(o.Le(o.Int(0), i), o.Lt(i, s.Len)), o.And(o.Le(o.Int('0'), c), o.Le(c, o.Int('9'))))))))
+		canon := o.Or(o.Eq(s.Len, o.Int(1)), o.Neq(o.SelByte(s.Arr, s.Off), o.Int('0')))
+		d := x.digitsOf(val, 10, 20, 0, true)
+		var eqs []*Term
+		eqs = append(eqs, o.Eq(d.Len, s.Len))
+		for k := 0; k < 20; k++ {
+			eqs = append(eqs, o.Implies(o.Lt(o.Int(int64(k)), s.Len), o.Eq(o.SelByte(d.Arr, o.Int(int64(k))), o.SelByte(s.Arr, o.Add(s.Off, o.Int(int64(k)))))))
+		}
+		x.assume(o.Implies(o.And(valid, canon), o.And(eqs...)))
+		x.trusted["strconv: ParseUint(FormatUint(v)) == v and FormatUint(ParseUint(s)) == s for canonical s (round-trip axiom)"] = true
+	}
+	return valid, val
+}
+
+// strconv.ParseUint(s, 10, 64)
 func schemaParseUint(x *Exec, st *State, fn *ssa.Function, args []Val, c *ssa.CallCommon) Val {
 	o := x.o
 	if o.M.BV {
@@ -570,21 +606,9 @@ func schemaParseUint(x *Exec, st *State, fn *ssa.Function, args []Val, c *ssa.Ca
 	for k := range ue.As {
 		ue.As[k] = o.False()
 	}
-	okErr := ErrVal{Nil: o.True(), Is: map[string]*Term{}, As: map[string]*Term{}, Data: map[string]*Term{}}
-	if b := o.Bounds(s.Len); b.hi != nil && b.hi.IsInt64() && b.hi.Int64() <= 24 {
-		K := int(b.hi.Int64())
-		digits, val := x.decimalValue(s, K)
-		good := o.And(o.Le(o.Int(1), s.Len), digits, o.Lt(val, o.IntBig(two64)))
-		ue.Nil = o.False()
-		// on a range error ParseUint returns MaxUint64; on a syntax error 0
-		bad := o.Ite(o.And(o.Le(o.Int(1), s.Len), digits), o.IntBig(tyUint64.Max()), o.Int(0))
-		return TupleVal{o.Ite(good, val, bad), x.iteVal(good, okErr, ue)}
-	}
-	// unbounded: uninterpreted value / validity as functions of the content
-	valid := o.UF("parseuint.ok", BoolSort, s.Arr, s.Off, s.Len)
-	val := o.UF("parseuint.val", IntSort, s.Arr, s.Off, s.Len)
-	x.assume(o.And(o.Le(o.Int(0), val), o.Lt(val, o.IntBig(two64))))
 	ue.Nil = o.False()
+	okErr := ErrVal{Nil: o.True(), Is: map[string]*Term{}, As: map[string]*Term{}, Data: map[string]*Term{}}
+	good, val := x.parseUintTerms(s)
 	uv := o.TypedFresh(fmt.Sprintf("parseuint%d.v", seq), tyUint64)
-	return TupleVal{o.Ite(valid, val, uv), x.iteVal(valid, okErr, ue)}
+	return TupleVal{o.Ite(good, val, uv), x.iteVal(good, okErr, ue)}
 }
